@@ -13,6 +13,16 @@ ALLOWED_AXIOMS = {
 }
 
 PROPS = {
+    "C20": {
+        "n": {"quick": 500, "thorough": 8000},
+        "shards": 16,
+        "trusted": [
+            "the model's input is the transaction list the server aggregates over (ResolvedJournal.AllTransactions, read through exported API) as produced by the real parser; the oracle's scope (current text + every file of its tree or workspace, each once) is computed by the harness and parsed by the real parser",
+            "hover markdown is parsed back into figures by the harness; decimals are compared by value",
+        ],
+        "assumptions": ["hover positions are on ASCII account names / payees / tag names (range questions are C08's subject)"],
+        "explanation": "C20_sum for all transaction lists, additivity over the include tree and of all counts; tie+oracle on generated multi-file directories with hovers before and after edits",
+    },
     "C18": {
         "n": {"quick": 2000, "thorough": 40000},
         "shards": 16,
